@@ -74,6 +74,11 @@ def main():
     res = tlc("Spelling", cfg="MCSpelling3.cfg" if thorough else "MCSpelling.cfg", timeout=600)
     c.add_tlc(res)
     spellings = tlc_cases(res.out)
+    if thorough and len(spellings) > 1000:
+        # (MaxFlips = 7 reaches all 2592 spellings; all 864 one-document spellings are kept, the multi-document ones are a seeded third)
+        multi = [x for x in spellings if x["spelling"].get("docs", "one") != "one"]
+        c.rng.shuffle(multi)
+        spellings = [x for x in spellings if x["spelling"].get("docs", "one") == "one"] + multi[:len(multi) // 3]
     # the spelling that differs most from the canonical one (every syntax choice flipped at once) is part of every tier: some type
     # shapes only change their parse tree when shorthand and `T?` are combined (`int?*` vs !vector {items: [null, int]})
     allshort = {"shorthand": True, "prim_alias": True, "optional": "question", "comments": False, "blanks": False, "order": "asis", "files": 1, "generics": "none", "docs": "one"}
